@@ -8,8 +8,7 @@ package dspinner
 // muts(): number of successful mutations of the persistent pin state (records + indexes)
 // faulted(): some storage operation (datastore / index read or write, sync, decode) failed
 // dirtyMarked(): the dirty flag has been raised (setDirty) since the last setClean
-//@ ghost muts() Int
-//@ ghost faulted() bool
+// (muts and faulted are declared in dsindex, the lower package)
 //@ ghost dirtyMarked() bool
 
 // reads
@@ -34,14 +33,7 @@ package dspinner
 //@   modifies muts(), faulted()
 //@   ensures err == nil ==> muts() == old(muts()) + 1 && faulted() == old(faulted())
 //@   ensures err != nil ==> muts() == old(muts()) && faulted()
-//@ func iface github.com/ipfs/go-datastore.Datastore.Put
-//@   modifies muts(), faulted()
-//@   ensures err == nil ==> muts() == old(muts()) + 1 && faulted() == old(faulted())
-//@   ensures err != nil ==> muts() == old(muts()) && faulted()
-//@ func iface github.com/ipfs/go-datastore.Datastore.Delete
-//@   modifies muts(), faulted()
-//@   ensures err == nil ==> muts() == old(muts()) + 1 && faulted() == old(faulted())
-//@   ensures err != nil ==> muts() == old(muts()) && faulted()
+// (Datastore.Put / Datastore.Delete: same contract, declared in dsindex, the lower package)
 
 //@ func (*pinner).setDirty
 //@   assumed
